@@ -19,8 +19,8 @@ import traceback
 import zlib
 
 ROOT = os.path.dirname(os.path.dirname(os.path.abspath(__file__)))
-EVIDENCE_DIR = os.path.join(ROOT, "evidence")
-REPLAY_DIR = os.path.join(ROOT, "replays")
+EVIDENCE_DIR = os.environ.get("VERIF_EVIDENCE_DIR") or os.path.join(ROOT, "evidence")
+REPLAY_DIR = os.environ.get("VERIF_REPLAY_DIR") or os.path.join(ROOT, "replays")
 KNOWN_FILE = os.path.join(ROOT, "known_findings.json")
 EVIDENCE_SCHEMA = "/root/.vp/EVIDENCE.schema.json"
 
@@ -97,11 +97,16 @@ def _run_one(case):
 # driver side
 # ---------------------------------------------------------------------------
 def load_known(prop):
-    if not os.path.exists(KNOWN_FILE):
-        return []
-    with open(KNOWN_FILE, encoding="utf-8") as fin:
-        data = json.load(fin)
-    return [f for f in data.get("findings", []) if f.get("property") == prop]
+    """Entries of the committed known-findings file for one property.
+    VERIF_KNOWN_EXTRA (development only) names a second file that is merged in."""
+    found = []
+    for path in (KNOWN_FILE, os.environ.get("VERIF_KNOWN_EXTRA")):
+        if not path or not os.path.exists(path):
+            continue
+        with open(path, encoding="utf-8") as fin:
+            data = json.load(fin)
+        found += [f for f in data.get("findings", []) if f.get("property") == prop]
+    return found
 
 
 def _merge(results):
